@@ -129,6 +129,7 @@ def retag_rule(ctx, crate):
                        "do_expansion / its passes not found (%d passes)" % len(passes)):
         return
     ctx.analysed(de)
+    exposure = set()
     later_subst = {}
     for i, p in enumerate(passes):
         later_subst[p] = [q for q in passes[i + 1:] if "command_substitution" in q]
@@ -177,6 +178,37 @@ def retag_rule(ctx, crate):
         if not found:
             ctx.ob("R13-2", p, "pass writes only text derived from the token itself (or with a non-empty tag)", True,
                    crate=crate.kind)
+        for cname, tdesc, sk in found:
+            if sk == OP_SINKS:
+                exposure.add("%s via %s" % (cname, p.split("::")[-1]))
+    exposed_sinks_rule(ctx, crate, exposure)
+
+
+POST_EXPANSION = ["types::CommandLine::from_line", "types::split_tokens_by_pipes", "types::Command::from_tokens",
+                  "parsers::parser_line::tokens_to_redirections"]
+
+
+def exposed_sinks_rule(ctx, crate, exposure):
+    """While some pass leaves external text under an empty tag (exposure), every recogniser that runs after
+    the expansion and accepts an empty tag is a place where that text becomes syntax.  One finding per
+    function, keyed by the set of things it recognises: a new recogniser is a new finding."""
+    for p in POST_EXPANSION:
+        bodies = [crate.fn(p)] + crate.closures_of(p)
+        descs = set()
+        where = ""
+        for b in bodies:
+            if b is None:
+                continue
+            for insp in etag.find_inspections(crate, b, p):
+                if insp.cls in ("OP", "STRICT"):
+                    descs.add(insp.desc)
+                    where = where or b.loc(insp.bb)
+        if not ctx.require(bool(descs), "R13-2", "R13-2|sink-anchor|%s" % p, "no recogniser found in %s" % p, p):
+            continue
+        d = "; ".join(sorted(descs))
+        ctx.ob("R13-2", p, "recognisers {%s} never see expansion results carrying an empty tag" % d, not exposure,
+               key="R13-2|sink|%s|%s" % (p, d), where=where, crate=crate.kind,
+               detail=None if not exposure else "exposed through: " + ", ".join(sorted(exposure)))
 
 
 def split_rule(ctx, crate):
